@@ -9,6 +9,7 @@ namespace coloquinte {
 #ifdef COLOQUINTE_VERIF
 namespace verif {
 void (*onMatrixSolve)(const AssembledSystem &) = nullptr;
+void (*onSolveStart)(const NetModel *) = nullptr;
 }  // namespace verif
 #endif
 
@@ -665,6 +666,9 @@ std::vector<float> NetModel::solveWithPenalty(
     const std::vector<float> &netPlacement,
     const std::vector<float> &placementTarget,
     const std::vector<float> &penaltyStrength, const Parameters &params) const {
+#ifdef COLOQUINTE_VERIF
+  if (verif::onSolveStart != nullptr) verif::onSolveStart(this);
+#endif
   MatrixCreator builder = MatrixCreator::create(
       *this, netPlacement, params.approximationDistance, params.netModel);
   builder.addPenalty(netPlacement, placementTarget, penaltyStrength,
